@@ -30,4 +30,6 @@ pub mod c05;
 #[cfg(kani)]
 pub mod c17;
 #[cfg(kani)]
+pub mod c18;
+#[cfg(kani)]
 mod setup;
